@@ -243,7 +243,10 @@ RecvHs(s, r, c, ch) ==
         IF s.retried /\ ~s.cfg.dtls THEN Fatal(s, <<m>>)
         ELSE Result([s EXCEPT !.retried = TRUE,
                               !.recvSeq = IF s.retried THEN s.recvSeq ELSE Append(s.recvSeq, m),
-                              !.tampered = s.tampered \/ ~r.gen], <<m>>, <<m>>, 0, FALSE, TRUE)
+                              \* RFC 6347 4.2.1: the cookie-less ClientHello and the HelloVerifyRequest are not part of
+                              \* the transcript - a modified first hello does not spoil the DTLS handshake; a TLS 1.3
+                              \* ClientHello1 is part of it (message_hash)
+                              !.tampered = s.tampered \/ (~r.gen /\ ~s.cfg.dtls)], <<m>>, <<m>>, 0, FALSE, TRUE)
     ELSE
         LET hs2 == IF fam2 = "T13" THEN After13(s.role, s.hs, m, cc) ELSE AfterL(s.role, g, cc)
             rd2 == IF fam2 = "T13" THEN
